@@ -9,8 +9,9 @@ pass=0; fail=0; bok=0; bbad=0
 for d in seeded/*/; do
   n=$(basename $d)
   prop=$(python3 -c "import json;m=json.load(open('$d/meta.json'));print(m.get('evaluate_with',m['property']))")
+  renv=$(python3 -c "import json;m=json.load(open('$d/meta.json'));print(m.get('regress_env',''))")
   git -C $R apply $V/$d/patch.diff || { echo "$n APPLY-FAILED"; continue; }
-  VERIF_REPO=$R python3 check.py $prop --tier quick > /tmp/regress_$n.out 2>&1; rc=$?
+  env $renv VERIF_REPO=$R python3 check.py $prop --tier quick > /tmp/regress_$n.out 2>&1; rc=$?
   git -C $R checkout -- .
   cls=$(grep -m1 "class=" /tmp/regress_$n.out | sed 's/ detail=.*//')
   echo "$n $prop rc=$rc $cls"
